@@ -3,176 +3,176 @@ import Panrpc.Skeleton
 namespace Panrpc
 
 def Skeleton.pinned : Skeleton where
-  bcPublishLooksUpUnderLock := true  -- broadcaster.go:41
-  bcPublishChecksClosed := true  -- broadcaster.go:35
-  bcPublishSelectOutsideLock := true  -- broadcaster.go:49
-  bcPublishSelectsSend := true  -- broadcaster.go:49
-  bcPublishSelectsEntryCtx := true  -- broadcaster.go:49
-  bcReceiveRefusesWhenClosed := true  -- broadcaster.go:60
-  bcReceiveChildCtx := true  -- broadcaster.go:67
-  bcReceiveReusesEntry := true  -- broadcaster.go:67
-  bcRecvSelectsChan := true  -- broadcaster.go:80
-  bcRecvSelectsCallerCtx := true  -- broadcaster.go:80
-  bcRecvSelectsDone := false  -- broadcaster.go:80
-  bcRecvChecksChanClosed := true  -- broadcaster.go:80
-  bcFreeCancels := true  -- broadcaster.go:97
-  bcFreeClosesChan := true  -- broadcaster.go:98
-  bcFreeClosesDone := false  -- ?
-  bcFreeDeletes := true  -- broadcaster.go:100
-  bcFreeUnderLock := true  -- broadcaster.go:93
-  bcCloseCancelsAll := true  -- broadcaster.go:107
-  bcCloseClosesChans := true  -- broadcaster.go:108
-  bcCloseClosesDone := false  -- ?
-  bcCloseClearsTable := true  -- broadcaster.go:110
-  bcCloseSetsClosed := true  -- broadcaster.go:111
-  bcCloseUnderLock := true  -- broadcaster.go:104
-  bcChanCap := 0  -- broadcaster.go:70
-  stubCallIdFresh := true  -- registry.go:133
-  stubRequestCallIsCallId := true  -- registry.go:135
-  stubRequestFunctionIsName := true  -- registry.go:135
-  stubRequestArgsInitEmpty := true  -- registry.go:135
-  stubArgsAppendInOrder := true  -- registry.go:142
-  stubCtxSkipped := true  -- registry.go:143
-  stubFuncArgsRegistered := true  -- registry.go:155
-  stubClosureFreeDeferred := true  -- registry.go:155
-  stubReceiveKeyIsCallId := true  -- registry.go:180
-  stubReceiveCtxIsCallCtx := true  -- registry.go:180
-  stubRecvBeforeWrite := true  -- registry.go:197
-  stubWaiterSpawnedBeforeWrite := true  -- registry.go:186
-  stubWaiterFreesOnExit := true  -- registry.go:186
-  stubWaiterMapsErrToCancelled := true  -- registry.go:186
-  stubResChanCap := 0  -- registry.go:185
-  stubSelectsRes := true  -- registry.go:202
-  stubSelectsLinkCtx := true  -- registry.go:202
-  stubRecovers := true  -- registry.go:107
-  stubRecoverCallsSetErr := true  -- registry.go:107
-  stubFixesArity := true  -- registry.go:107
-  stubErrResultFromResponse := true  -- registry.go:203
-  stubTwoOutSkipsDecodeWhenCancelled := true  -- registry.go:220
-  stubOneOutDecodesValueOnlyIfNotError := true  -- registry.go:203
-  respPublishAsync := true  -- registry.go:884
-  respPublishKeyIsResCall := true  -- registry.go:884
-  respPublishValueIsResValue := true  -- registry.go:884
-  respErrIffTrimNonEmpty := true  -- registry.go:884
-  respErrFreshPerFrame := true  -- registry.go:865
-  respLoopExitsOnReadErr := true  -- registry.go:865
-  respLoopSetErrOnReadErr := true  -- registry.go:865
-  reqHandlerGoDepth := 2  -- registry.go:720
-  reqResolveGoDepth := 1  -- registry.go:698
-  reqResolverRecovers := false  -- registry.go:698
-  reqResolveErrSetErr := true  -- registry.go:698
-  reqCallViaUtilsCall := true  -- registry.go:720
-  reqCallErrSetErr := true  -- registry.go:720
-  reqResponseCallIsReqCall := true  -- registry.go:736
-  reqResponseCount := 5  -- registry.go:736
-  reqRespShapesOk := true  -- nil|"" ; nil|res[0].Interface().(error).Error() ; res[0].Interface()|"" ; res[0].Interface()|"" ; res[0].Interface()|res[1].Interface().(error).Error()
-  reqOneResponsePerBranch := true  -- registry.go:736
-  reqCtxCarriesRemoteId := true  -- registry.go:698
-  reqLoopExitsOnReadErr := true  -- registry.go:682
-  lkSplitOnDot := true  -- registry.go:486
-  lkEmptyPathRejected := true  -- registry.go:487
-  lkWalksAllButLast := true  -- registry.go:493
-  lkDerefPtrOnce := true  -- registry.go:494
-  lkRejectsNonStruct := true  -- registry.go:498
-  lkFieldByName := true  -- registry.go:502
-  lkRejectsInvalidField := true  -- registry.go:503
-  lkMethodByNameOnLast := true  -- registry.go:508
-  lkRejectsNonFunc := true  -- registry.go:509
-  lkRecoversPanics := false  -- registry.go:485
-  lkFallbackIsClosureManager := true  -- registry.go:348
-  lkFallbackRejectsNonFunc := true  -- registry.go:352
-  lkClosureManagerMethods := ["CallClosure"]  -- exported methods declared on closureManager
-  lkArgCountChecked := true  -- registry.go:357
-  lkArgCountBeforeDecode := true  -- registry.go:357
-  rwRecursesOnStructKind := true  -- registry.go:264
-  rwSkipsNonFunc := true  -- registry.go:286
-  rwChecks := [.numOutRange, .lastOutIsError, .numInAtLeastOne, .firstInIsCtx]  -- registry.go:290 registry.go:294 registry.go:298 registry.go:302
-  rwNameJoinsWithDot := true  -- registry.go:265
-  rwSetsStub := true  -- registry.go:306
-  rwStubNameIsPath := true  -- registry.go:308
-  rwGuardsUnsettable := false  -- registry.go:306
-  rwErrSetErr := true  -- registry.go:545
-  cvUnwrapsInterfaces := true  -- registry.go:517
-  cvHandlesInvalid := false  -- ?
-  cvUsesConvertibleTo := true  -- registry.go:521
-  cvSliceElementwise := true  -- registry.go:526
-  cvFallbackError := true  -- registry.go:516
-  clArgCountChecked := true  -- manager.go:42
-  clCallViaUtilsCall := true  -- manager.go:56
-  clLookupUnderLock := true  -- manager.go:82
-  clMissingIsError := true  -- manager.go:82
-  clDeleteUnderLock := true  -- manager.go:97
-  clInsertUnderLock := true  -- manager.go:97
-  clIdFresh := true  -- manager.go:97
-  ucRecovers := true  -- call.go:12
-  ucNonErrorPanicMapped := true  -- call.go:12
-  seOrder := .closeThenStore  -- registry.go:622
-  seFirstOnly := false  -- registry.go:622
-  seBroadcasts := true  -- registry.go:623
-  seStoreUnderLock := true  -- registry.go:622
-  linkWaitsOnCond := true  -- registry.go:545
-  watcherCallsSetErr := true  -- registry.go:545
-  rgPerLinkBroadcaster := true  -- registry.go:603
-  rgPerLinkFatalSlot := true  -- registry.go:545
-  rgPerLinkRemoteValue := true  -- registry.go:605
-  rgPerLinkRemoteId := true  -- registry.go:654
-  rgRegistryConnectHook := true  -- registry.go:660
-  rgLinkConnectHook := false  -- ?
-  rgRegisterAtomic := true  -- registry.go:657
-  rgRegistryDisconnectHook := true  -- registry.go:670
-  rgLinkDisconnectHook := false  -- ?
-  rgUnregisterAtomic := true  -- registry.go:667
-  rgUnregisterDeferredAfterWait := true  -- registry.go:665
-  rgRegisterBeforeLoops := true  -- registry.go:635
-  rgWaitsForBothLoops := true  -- registry.go:888
-  rgForRemotesUnderLock := true  -- registry.go:982
-  stDecoderHandsRequests := true  -- registry.go:922
-  stDecoderHandsResponses := true  -- registry.go:922
-  stHandoffGuarded := false  -- registry.go:934
-  stDecodeErrBeforeClose := true  -- registry.go:922
-  stDecoderExitsOnErr := true  -- registry.go:922
-  stReadersSelectDone := true  -- registry.go:943
-  stEncodeRequestOnly := true  -- registry.go:943
-  stEncodeResponseOnly := true  -- registry.go:943
-  stPayloadOpaque := true  -- 
-  tagReqCall := "call"  -- messages.go:3
-  tagReqFunction := "function"  -- messages.go:3
-  tagReqArgs := "args"  -- messages.go:3
-  tagResCall := "call"  -- messages.go:17
-  tagResValue := "value"  -- messages.go:17
-  tagResErr := "err"  -- messages.go:17
-  tagMsgRequest := "request"  -- registry.go:34
-  tagMsgResponse := "response"  -- registry.go:34
+  bcPublishLooksUpUnderLock := true
+  bcPublishChecksClosed := true
+  bcPublishSelectOutsideLock := true
+  bcPublishSelectsSend := true
+  bcPublishSelectsEntryCtx := true
+  bcReceiveRefusesWhenClosed := true
+  bcReceiveChildCtx := true
+  bcReceiveReusesEntry := true
+  bcRecvSelectsChan := true
+  bcRecvSelectsCallerCtx := true
+  bcRecvSelectsDone := false
+  bcRecvChecksChanClosed := true
+  bcFreeCancels := true
+  bcFreeClosesChan := true
+  bcFreeClosesDone := false
+  bcFreeDeletes := true
+  bcFreeUnderLock := true
+  bcCloseCancelsAll := true
+  bcCloseClosesChans := true
+  bcCloseClosesDone := false
+  bcCloseClearsTable := true
+  bcCloseSetsClosed := true
+  bcCloseUnderLock := true
+  bcChanCap := 0
+  stubCallIdFresh := true
+  stubRequestCallIsCallId := true
+  stubRequestFunctionIsName := true
+  stubRequestArgsInitEmpty := true
+  stubArgsAppendInOrder := true
+  stubCtxSkipped := true
+  stubFuncArgsRegistered := true
+  stubClosureFreeDeferred := true
+  stubReceiveKeyIsCallId := true
+  stubReceiveCtxIsCallCtx := true
+  stubRecvBeforeWrite := true
+  stubWaiterSpawnedBeforeWrite := true
+  stubWaiterFreesOnExit := true
+  stubWaiterMapsErrToCancelled := true
+  stubResChanCap := 0
+  stubSelectsRes := true
+  stubSelectsLinkCtx := true
+  stubRecovers := true
+  stubRecoverCallsSetErr := true
+  stubFixesArity := true
+  stubErrResultFromResponse := true
+  stubTwoOutSkipsDecodeWhenCancelled := true
+  stubOneOutDecodesValueOnlyIfNotError := true
+  respPublishAsync := true
+  respPublishKeyIsResCall := true
+  respPublishValueIsResValue := true
+  respErrIffTrimNonEmpty := true
+  respErrFreshPerFrame := true
+  respLoopExitsOnReadErr := true
+  respLoopSetErrOnReadErr := true
+  reqHandlerGoDepth := 2
+  reqResolveGoDepth := 1
+  reqResolverRecovers := false
+  reqResolveErrSetErr := true
+  reqCallViaUtilsCall := true
+  reqCallErrSetErr := true
+  reqResponseCallIsReqCall := true
+  reqResponseCount := 5
+  reqRespShapesOk := true
+  reqOneResponsePerBranch := true
+  reqCtxCarriesRemoteId := true
+  reqLoopExitsOnReadErr := true
+  lkSplitOnDot := true
+  lkEmptyPathRejected := true
+  lkWalksAllButLast := true
+  lkDerefPtrOnce := true
+  lkRejectsNonStruct := true
+  lkFieldByName := true
+  lkRejectsInvalidField := true
+  lkMethodByNameOnLast := true
+  lkRejectsNonFunc := true
+  lkRecoversPanics := false
+  lkFallbackIsClosureManager := true
+  lkFallbackRejectsNonFunc := true
+  lkClosureManagerMethods := ["CallClosure"]
+  lkArgCountChecked := true
+  lkArgCountBeforeDecode := true
+  rwRecursesOnStructKind := true
+  rwSkipsNonFunc := true
+  rwChecks := [.numOutRange, .lastOutIsError, .numInAtLeastOne, .firstInIsCtx]
+  rwNameJoinsWithDot := true
+  rwSetsStub := true
+  rwStubNameIsPath := true
+  rwGuardsUnsettable := false
+  rwErrSetErr := true
+  cvUnwrapsInterfaces := true
+  cvHandlesInvalid := false
+  cvUsesConvertibleTo := true
+  cvSliceElementwise := true
+  cvFallbackError := true
+  clArgCountChecked := true
+  clCallViaUtilsCall := true
+  clLookupUnderLock := true
+  clMissingIsError := true
+  clDeleteUnderLock := true
+  clInsertUnderLock := true
+  clIdFresh := true
+  ucRecovers := true
+  ucNonErrorPanicMapped := true
+  seOrder := .closeThenStore
+  seFirstOnly := false
+  seBroadcasts := true
+  seStoreUnderLock := true
+  linkWaitsOnCond := true
+  watcherCallsSetErr := true
+  rgPerLinkBroadcaster := true
+  rgPerLinkFatalSlot := true
+  rgPerLinkRemoteValue := true
+  rgPerLinkRemoteId := true
+  rgRegistryConnectHook := true
+  rgLinkConnectHook := false
+  rgRegisterAtomic := true
+  rgRegistryDisconnectHook := true
+  rgLinkDisconnectHook := false
+  rgUnregisterAtomic := true
+  rgUnregisterDeferredAfterWait := true
+  rgRegisterBeforeLoops := true
+  rgWaitsForBothLoops := true
+  rgForRemotesUnderLock := true
+  stDecoderHandsRequests := true
+  stDecoderHandsResponses := true
+  stHandoffGuarded := false
+  stDecodeErrBeforeClose := true
+  stDecoderExitsOnErr := true
+  stReadersSelectDone := true
+  stEncodeRequestOnly := true
+  stEncodeResponseOnly := true
+  stPayloadOpaque := true
+  tagReqCall := "call"
+  tagReqFunction := "function"
+  tagReqArgs := "args"
+  tagResCall := "call"
+  tagResValue := "value"
+  tagResErr := "err"
+  tagMsgRequest := "request"
+  tagMsgResponse := "response"
   accesses := [
-    { var := "Broadcaster.channels", site := "Free", write := true, locks := ["b.lock"], order := "" },
     { var := "Broadcaster.channels", site := "Close", write := false, locks := ["b.lock"], order := "" },
     { var := "Broadcaster.channels", site := "Close", write := true, locks := ["b.lock"], order := "" },
+    { var := "Broadcaster.channels", site := "Free", write := false, locks := ["b.lock"], order := "" },
+    { var := "Broadcaster.channels", site := "Free", write := true, locks := ["b.lock"], order := "" },
     { var := "Broadcaster.channels", site := "Publish", write := false, locks := ["b.lock"], order := "" },
     { var := "Broadcaster.channels", site := "Receive", write := false, locks := ["b.lock"], order := "" },
     { var := "Broadcaster.channels", site := "Receive", write := true, locks := ["b.lock"], order := "" },
-    { var := "Broadcaster.channels", site := "Free", write := false, locks := ["b.lock"], order := "" },
     { var := "Broadcaster.closed", site := "Close", write := true, locks := ["b.lock"], order := "" },
     { var := "Broadcaster.closed", site := "Publish", write := false, locks := ["b.lock"], order := "" },
     { var := "Broadcaster.closed", site := "Receive", write := false, locks := ["b.lock"], order := "" },
-    { var := "LinkMessage.fatalErr", site := "LinkMessage.func@registry.go:614", write := true, locks := ["fatalErrLock.L"], order := "" },
     { var := "LinkMessage.fatalErr", site := "LinkMessage", write := false, locks := ["fatalErrLock.L"], order := "" },
     { var := "LinkMessage.fatalErr", site := "LinkMessage", write := false, locks := ["fatalErrLock.L"], order := "" },
-    { var := "LinkStream.decodeErr", site := "LinkStream.func@registry.go:922", write := true, locks := [], order := "close:decodeDone" },
-    { var := "LinkStream.decodeErr", site := "LinkStream.func@registry.go:957", write := false, locks := [], order := "close:decodeDone" },
-    { var := "LinkStream.decodeErr", site := "LinkStream.func@registry.go:965", write := false, locks := [], order := "close:decodeDone" },
-    { var := "Registry.hooks", site := "LinkMessage.func@registry.go:635", write := false, locks := ["r.remotesLock"], order := "" },
-    { var := "Registry.hooks", site := "LinkMessage.func@registry.go:635", write := false, locks := ["r.remotesLock"], order := "" },
-    { var := "Registry.hooks", site := "LinkMessage.func@registry.go:665", write := false, locks := ["r.remotesLock"], order := "" },
-    { var := "Registry.hooks", site := "LinkMessage.func@registry.go:665", write := false, locks := ["r.remotesLock"], order := "" },
-    { var := "Registry.local", site := "makeRPC.func@registry.go:106", write := false, locks := [], order := "" },
+    { var := "LinkMessage.fatalErr", site := "LinkMessage.func5", write := true, locks := ["fatalErrLock.L"], order := "" },
+    { var := "LinkStream.decodeErr", site := "LinkStream.func1", write := true, locks := [], order := "close:decodeDone" },
+    { var := "LinkStream.decodeErr", site := "LinkStream.func4", write := false, locks := [], order := "close:decodeDone" },
+    { var := "LinkStream.decodeErr", site := "LinkStream.func5", write := false, locks := [], order := "close:decodeDone" },
+    { var := "Registry.hooks", site := "LinkMessage.func7", write := false, locks := ["r.remotesLock"], order := "" },
+    { var := "Registry.hooks", site := "LinkMessage.func7", write := false, locks := ["r.remotesLock"], order := "" },
+    { var := "Registry.hooks", site := "LinkMessage.func8", write := false, locks := ["r.remotesLock"], order := "" },
+    { var := "Registry.hooks", site := "LinkMessage.func8", write := false, locks := ["r.remotesLock"], order := "" },
     { var := "Registry.local", site := "findLocalFunctionToCallRecursively", write := false, locks := [], order := "" },
     { var := "Registry.local", site := "findLocalFunctionToCallRecursively", write := false, locks := [], order := "" },
+    { var := "Registry.local", site := "makeRPC.func1", write := false, locks := [], order := "" },
     { var := "Registry.remote", site := "LinkMessage", write := false, locks := [], order := "" },
-    { var := "Registry.remotes", site := "LinkMessage.func@registry.go:635", write := true, locks := ["r.remotesLock"], order := "" },
-    { var := "Registry.remotes", site := "LinkMessage.func@registry.go:665", write := true, locks := ["r.remotesLock"], order := "" },
     { var := "Registry.remotes", site := "ForRemotes", write := false, locks := ["r.remotesLock"], order := "" },
+    { var := "Registry.remotes", site := "LinkMessage.func7", write := true, locks := ["r.remotesLock"], order := "" },
+    { var := "Registry.remotes", site := "LinkMessage.func8", write := true, locks := ["r.remotesLock"], order := "" },
+    { var := "closureManager.closures", site := "CallClosure", write := false, locks := ["m.closuresLock"], order := "" },
     { var := "closureManager.closures", site := "registerClosure", write := true, locks := ["m.closuresLock"], order := "" },
-    { var := "closureManager.closures", site := "registerClosure.func@manager.go:109", write := true, locks := ["m.closuresLock"], order := "" },
-    { var := "closureManager.closures", site := "CallClosure", write := false, locks := ["m.closuresLock"], order := "" }]  -- 30 accesses
+    { var := "closureManager.closures", site := "registerClosure.func2", write := true, locks := ["m.closuresLock"], order := "" }]
 
 end Panrpc
